@@ -547,6 +547,17 @@ AppSessionCtx(s, tok) ==
           ELSE g' = [Out(g0, [k |-> "sess", s |-> s, ud |-> g0.ss[s].ud]) EXCEPT !.ss[s].ud = tok]
     /\ UNCHANGED <<now, polls, psleep, wsr, wsin, wsw, wsgone, joiners, mon, nreq>>
 
+\* server.shutdown(): stops the service task (if it runs); nothing restarts it afterwards
+\* (start_service_task is consumed by the first request).  Called at most once (a second call
+\* finds service_task_handle = None and raises; outside every listed property, see DESIGN).
+AppShutdown ==
+    /\ mon.st # "stopped"
+    /\ nreq' = nreq + 1
+    /\ g' = Out(EnvStart(g), [k |-> "ret", cid |-> nreq + 1])
+    /\ mon' = IF mon.st \in {"new", "wait", "sweep"}
+              THEN [mon EXCEPT !.st = "stopped", !.todo = <<>>] ELSE mon
+    /\ UNCHANGED <<now, polls, psleep, wsr, wsin, wsw, wsgone, joiners>>
+
 \* an API call naming an id that no session has (never issued, or a near miss of a live one:
 \* prefix, case variant, extension): send is a silent no-op, disconnect returns, the
 \* others raise KeyError; nothing else changes
@@ -809,7 +820,7 @@ WriterTimeout(i) ==
     /\ UNCHANGED <<now, psleep, wsr, wsin, joiners, mon, nreq>>
 
 (* ---- service task ---- *)
-\* mon.st: "disabled" | "off" (not started) | "new" | "wait" (sleeping) | "sweep"
+\* mon.st: "disabled" | "off" (not started) | "new" | "wait" (sleeping) | "sweep" | "stopped"
 \* A sweep visits a copy of the table in insertion order, sleeping PingTimeout / len(table)
 \* after each visit; with an empty table the task sleeps PingTimeout.  The time unit is chosen
 \* by the configuration so that the division is exact.
